@@ -133,3 +133,31 @@ Proof.
   intros n x [Hn Hm] Hx. simpl in *. apply in_boxes_cube in Hx. destruct Hx as [L Hb]. subst n.
   apply nb_min_tol. replace (-1 - tol) with (-1 - tol) by reflexivity. apply eqconstr_lower; assumption.
 Qed.
+
+(* ---------------------------------------------------------------- the two formulas before their fixes (F4, F3)
+   violate the clauses: kept as machine-checked refutations of the pre-fix code *)
+(* F4: product = -1; for c in x: product *= -1. * cos(c) ** 2. *)
+Definition easom_prefix (x : list R) : R :=
+  (-1 * prod_map (fun c => -1 * cos c ^ 2) x) * exp (- sum_map (fun c => (c - PI) ^ 2) x).
+
+Lemma easom_prefix_refuted : exists n, (1 <= n)%nat /\ ~ Rabs (easom_prefix (repeat PI n) - (-1)) <= tol.
+Proof.
+  exists 1%nat. split; [lia |]. unfold easom_prefix. cbn [repeat prod_map sum_map]. rewrite cos_PI.
+  replace (- ((PI - PI) ^ 2 + 0)) with 0 by ring. rewrite exp_0.
+  replace (-1 * (-1 * (-1) ^ 2 * 1) * 1 - -1) with 2 by ring.
+  rewrite Rabs_pos_eq by lra. unfold tol. lra.
+Qed.
+
+(* F3: `if summa.any() == 1.` is true for every non-zero numpy sum: the constraint is not applied *)
+Definition eqconstr_prefix (x : list R) : R :=
+  if Req_EM_T (eqc_sum x) 0 then 0 else -1 * eqc_prod x.
+
+Lemma eqconstr_prefix_refuted : exists x, in_boxes (cube 0 1 2) x /\ ~ not_better Minimize (-1) (eqconstr_prefix x).
+Proof.
+  exists [1; 1]. split; [apply (in_boxes_cube_repeat 0 1 1 2); lra |].
+  unfold eqconstr_prefix, eqc_sum, eqc_prod, dimR. cbn [sum_map prod_map length].
+  destruct (Req_EM_T (1 * 1 + (1 * 1 + 0)) 0) as [E | NE]; [exfalso; lra |].
+  replace (INR 2) with 2 by (simpl; ring).
+  replace (-1 * (1 * sqrt 2 * (1 * sqrt 2 * 1))) with (- (sqrt 2 * sqrt 2)) by ring.
+  rewrite sqrt_sqrt by lra. unfold not_better, tol. lra.
+Qed.
